@@ -256,8 +256,27 @@ pub fn run_real_runner_c12(plan: &Rc<Plan>) -> Result<CHistory, String> {
     }
     ch.numbers = numbers;
     {
+        // the raw stream and the writer's input were recorded by two recorders, each numbering the
+        // `Source` pointers it meets on its own: carry the raw stream's ids over (events are identified
+        // by their unique virtual timestamp)
+        let ids: BTreeMap<u64, (usize, usize, usize, Option<usize>)> =
+            ch.input.iter().filter(|e| e.at != 0).map(|e| (e.at, (e.fptr, e.rptr, e.sptr, e.step.as_ref().map(|s| s.ptr)))).collect();
         let l = la.borrow();
-        ch.outputs.insert("out".to_owned(), l.events.clone());
+        let events: Vec<(usize, Ev)> = l
+            .events
+            .iter()
+            .map(|(c, e)| {
+                let mut e = e.clone();
+                if let Some((f, r, s, st)) = ids.get(&e.at) {
+                    (e.fptr, e.rptr, e.sptr) = (*f, *r, *s);
+                    if let (Some(step), Some(p)) = (e.step.as_mut(), st) {
+                        step.ptr = *p;
+                    }
+                }
+                (*c, e)
+            })
+            .collect();
+        ch.outputs.insert("out".to_owned(), events);
         ch.writes.insert("out".to_owned(), l.writes.clone());
     }
     ch.shape.events = ch.input.len();
@@ -611,9 +630,14 @@ pub fn c11(ch: &CHistory, out: &mut Vec<Violation>) {
         }
     }
     // ---- per call: prefix extension is implicit (log only grows); immediacy and maximal progress
+    // (not for histories of a real run through `Cucumber::filter_run`: the calls are made by the pipeline's
+    // own loop there, the recorded outputs carry no call index; losslessness and final shape remain)
     let sequential_input = is_sequential(input);
     let mut out_pos = 0usize; // number of outputs produced up to and including call i
     for (i, inp) in input.iter().enumerate() {
+        if ch.stack.starts_with("real_runner") {
+            break;
+        }
         while out_pos < output.len() && output[out_pos].0 <= i {
             out_pos += 1;
         }
